@@ -46,6 +46,20 @@ func w5FeedAvSize(p *model.Prog, r *report.Result, rule string) {
 				}
 			}
 		}
+		// or the buffer is handed to a same-package helper that writes the lengths
+		for _, ref := range *ms.Referrers() {
+			c, isC := ref.(ssa.CallInstruction)
+			if !isC {
+				continue
+			}
+			if ce := c.Common().StaticCallee(); ce != nil && ce.Blocks != nil && ce.Pkg == fn.Pkg {
+				for _, hc := range model.AllCalls(ce) {
+					if o := model.CalleeObj(hc.Common()); o != nil && o.Name() == "BePutUint32" {
+						lengthsWritten = true
+					}
+				}
+			}
+		}
 		if !lengthsWritten {
 			return
 		}
@@ -82,7 +96,27 @@ func w5MetaErr(p *model.Prog, r *report.Result, rule string) {
 	for _, name := range []string{"MetadataEnsureWithoutSdf", "MetadataEnsureWithSdf"} {
 		fn := p.Func("pkg/rtmp", name)
 		b := fn.Params[0]
-		for _, ci := range model.CallsTo(fn, readString) {
+		var reads []ssa.CallInstruction
+		reads = append(reads, model.CallsTo(fn, readString)...)
+		if len(reads) == 0 {
+			// the read may sit in a same-package helper that returns its error
+			for _, ci := range model.AllCalls(fn) {
+				ce := ci.Common().StaticCallee()
+				if ce == nil || ce.Blocks == nil || ce.Pkg != fn.Pkg || len(model.CallsTo(ce, readString)) == 0 {
+					continue
+				}
+				passesB := false
+				for _, a := range ci.Common().Args {
+					if a == ssa.Value(b) {
+						passesB = true
+					}
+				}
+				if passesB && len(errValuesOf(ci.Value())) > 0 {
+					reads = append(reads, ci)
+				}
+			}
+		}
+		for _, ci := range reads {
 			call, ok := ci.(*ssa.Call)
 			if !ok {
 				continue
@@ -98,7 +132,9 @@ func w5MetaErr(p *model.Prog, r *report.Result, rule string) {
 					if len(rvs) < 1 {
 						return true
 					}
-					return !model.DependsOn(rvs[0], func(v ssa.Value) bool { return v == ssa.Value(b) || (paramCell(v) != nil && paramCell(v) == paramCell(b)) })
+					return !model.DependsOn(rvs[0], func(v ssa.Value) bool {
+						return v == ssa.Value(b) || (paramCell(v) != nil && paramCell(v) == paramCell(b))
+					})
 				}}.Find(fn)
 				pos := p.InstrPos(ci)
 				if bad != nil {
@@ -238,52 +274,55 @@ func w5CsidForms(p *model.Prog, r *report.Result, rule string) {
 	found2, found3 := false, false
 	bad := ""
 	var pos ssa.Instruction
-	model.EachInstr(fn, func(in ssa.Instruction) {
-		bo, ok := in.(*ssa.BinOp)
-		if !ok || bo.Op != token.ADD {
-			return
-		}
-		// only the outermost sum of a csid computation: its referrers are not ADDs
-		for _, ref := range *bo.Referrers() {
-			if rb, isB := ref.(*ssa.BinOp); isB && rb.Op == token.ADD {
+	// RunLoop and the same-package helpers it calls (the basic-header read may be factored out)
+	for _, g := range model.StaticGroup(fn, 1) {
+		model.EachInstr(g, func(in ssa.Instruction) {
+			bo, ok := in.(*ssa.BinOp)
+			if !ok || bo.Op != token.ADD {
 				return
 			}
-		}
-		terms, k := csidTerms(bo)
-		if k != 64 || len(terms) == 0 {
-			return
-		}
-		w := map[int64]int64{} // byte index -> weight
-		for v, c := range terms {
-			ld, isL := model.Unwrap(v).(*ssa.UnOp)
-			if !isL {
+			// only the outermost sum of a csid computation: its referrers are not ADDs
+			for _, ref := range *bo.Referrers() {
+				if rb, isB := ref.(*ssa.BinOp); isB && rb.Op == token.ADD {
+					return
+				}
+			}
+			terms, k := csidTerms(bo)
+			if k != 64 || len(terms) == 0 {
 				return
 			}
-			ia, isIA := ld.X.(*ssa.IndexAddr)
-			if !isIA {
-				return
+			w := map[int64]int64{} // byte index -> weight
+			for v, c := range terms {
+				ld, isL := model.Unwrap(v).(*ssa.UnOp)
+				if !isL {
+					return
+				}
+				ia, isIA := ld.X.(*ssa.IndexAddr)
+				if !isIA {
+					return
+				}
+				idx, isK := model.ConstInt(ia.Index)
+				if !isK {
+					return
+				}
+				w[idx] += c
 			}
-			idx, isK := model.ConstInt(ia.Index)
-			if !isK {
-				return
+			switch len(w) {
+			case 1:
+				if w[0] == 1 {
+					found2 = true
+				} else {
+					bad, pos = "the 2-byte form is not 64 + b0", in
+				}
+			case 2:
+				if w[0] == 1 && w[1] == 256 {
+					found3 = true
+				} else {
+					bad, pos = fmt.Sprintf("the 3-byte form weighs its bytes %d and %d instead of 1 and 256", w[0], w[1]), in
+				}
 			}
-			w[idx] += c
-		}
-		switch len(w) {
-		case 1:
-			if w[0] == 1 {
-				found2 = true
-			} else {
-				bad, pos = "the 2-byte form is not 64 + b0", in
-			}
-		case 2:
-			if w[0] == 1 && w[1] == 256 {
-				found3 = true
-			} else {
-				bad, pos = fmt.Sprintf("the 3-byte form weighs its bytes %d and %d instead of 1 and 256", w[0], w[1]), in
-			}
-		}
-	})
+		})
+	}
 	at := p.Pos(fn.Pos())
 	if pos != nil {
 		at = p.InstrPos(pos)
@@ -375,8 +414,26 @@ func w5CacheKind(p *model.Prog, r *report.Result, rule string) {
 			r.Check(from == want, rule, fkey(g, "replay", want.Name()), p.InstrPos(ci), "replayed from "+want.Name(), "a "+ts[len(ts)-min(len(ts), 24):]+" is written data taken from "+from.Name()+": the bytes are in the other consumer kind's framing (RTMP chunks inside an FLV body or the reverse), the consumer loses tag / chunk alignment for the rest of the connection")
 		}
 	}
-	if n < 6 {
-		r.Bad(rule, "floor", "", fmt.Sprintf("only %d cache replays found in broadcastByRtmpMsg", n))
+	if n < 1 {
+		// the replay may be factored into a helper that is given the cache: then the pairing is
+		// the helper call's (cache argument, consumer) and is not decided by this clause
+		viaHelper := false
+		for _, g := range model.WithAnons(fn) {
+			for _, ci := range model.AllCalls(g) {
+				if ce := ci.Common().StaticCallee(); ce != nil && ce.Pkg == fn.Pkg {
+					for _, a := range ci.Common().Args {
+						if f := model.LoadedField(a); f == rtmpC || f == flvC {
+							viaHelper = true
+						}
+					}
+				}
+			}
+		}
+		if viaHelper {
+			r.Note(rule, "not-decided", p.Pos(fn.Pos()), "the caches are handed to a helper; the pairing of cache and consumer is not decided by this rule in this arrangement")
+		} else {
+			r.Bad(rule, "floor", "", "no cache replay found in broadcastByRtmpMsg")
+		}
 	}
 }
 
